@@ -19,7 +19,7 @@ func init() {
 const cachePkg = "pkg/cache"
 
 func runC20(c *Ctx) {
-	c.rule("C20-R7", "PAIR: every Lock/RLock of the cache's mutexes is released on every path to a return (explicit Unlock on the path, or a deferred one): no operation can return holding the lock, so every operation returns and none blocks forever whatever the value size or configuration")
+	c.rule("C20-R7", "PAIR: every Lock/RLock of the cache's mutexes is released on every path to a return (explicit Unlock on the path, or a deferred one): no operation can return holding the lock, so every operation returns and none blocks forever whatever the value size or configuration; REACQ: no method calls, while it holds its receiver's mutex, a method of the same receiver that acquires that mutex again (sync mutexes are not re-entrant; a second RLock blocks once a writer waits)")
 	c.Sites["C20-R7#acquire-sites"] = lockReleaseAudit(c, "C20-R7", []string{"pkg/cache"})
 	c.floor("C20-R7", 6)
 	if os.Getenv("GV_DEBUG_LOCKS") != "" {
